@@ -583,5 +583,6 @@ def run(R) -> None:
     R.rule('C07.R3', lambda: r3_index_base(R, unit))
     R.rule('C07.R4', lambda: r4_code_tables(R, unit))
     R.rule('C07.R5', lambda: r5_skeleton(R, unit))
+    R.rule('C07.R5b', lambda: c03.r7_default_range(R))
     R.rule('C07.R6', lambda: r6_equation_rewrite(R))
     R.rule('C07.R7', lambda: r7_numeric_literals(R))
